@@ -1,7 +1,8 @@
 (* C10 -- sampled packet headers are dissected correctly at any capture length.
-   Statements only; proofs in Proofs/PacketP.v. *)
+   Statements only; proofs in Proofs/FrameL.v (layer contracts), Proofs/FrameP.v (the loop over a chain of
+   layers, the full-capture theorem), Proofs/PacketP.v. *)
 From Coq Require Import List NArith Bool.
-From GF Require Import Base.Res Base.Bytes Base.Gen Model.Msg Model.Packet Spec.Frame Proofs.PacketP.
+From GF Require Import Base.Res Base.Bytes Base.Gen Model.Msg Model.Packet Spec.Frame Proofs.PacketP Proofs.FrameL Proofs.FrameP.
 Import ListNotations.
 Open Scope N_scope.
 
@@ -19,13 +20,63 @@ Theorem c10_parsers_total : forall ports p base m d, exists r, run_parser ports 
 Proof. exact run_parser_ok. Qed.
 Print Assumptions c10_parsers_total.
 
-(* the full-capture theorem parse_packet (encode_frame f) = ref_frame f is NOT proved for all
-   frames (c10_full of DESIGN.md); it is checked by evaluation on generated frames here and by the
-   correspondence run on every check.  Named _partial accordingly. *)
+(* THE PROPERTY for complete captures: for EVERY well-formed frame of the layered model -- any number of
+   VLAN tags, any MPLS stack (labels > 15), IPv4 or IPv6 with optional segment-routing and fragment
+   headers, no tunnel / GRE / GRE+Ethernet / IP-in-IP with any inner IP header, TCP, UDP, ICMP, ICMPv6 or
+   another protocol, any field values, any trailing bytes -- the dissector returns a message that has
+   exactly the columns of ref_frame f (Spec/Frame.v): MACs, ethertype, last VLAN id, MPLS labels and TTLs,
+   addresses, protocol, TOS, TTL, flow label, fragment id/offset/flags, ports, TCP flags, ICMP type/code,
+   SRv6 segment list, the layer stack and one size per layer; inner headers leave the outer fields alone.
+   meq = same value in every column and the same custom fields, so the same protobuf (c10_meq_observable). *)
+Theorem c10_full_capture : forall f, wf_frame f = true ->
+  exists m, parse_packet empty_pcfg empty_msg (encode_frame f) = Ok m /\ meq m (ref_frame f).
+Proof. exact parse_full_capture. Qed.
+Print Assumptions c10_full_capture.
+
+Theorem c10_meq_observable : forall m b, meq m b -> show_msg m = show_msg b.
+Proof. exact meq_show. Qed.
+Print Assumptions c10_meq_observable.
+
+(* capture cut short, layer by layer: a parser that does not see its whole header stops and sets
+   nothing (for EVERY byte string shorter than the header) ... *)
+Theorem c10_short_header_stops : forall ports p base m d,
+  (length d < min_len p)%nat -> run_parser ports p base m d = Ok (m, 0, PNone).
+Proof. exact short_stops. Qed.
+Print Assumptions c10_short_header_stops.
+
+(* ... and a parser that sees its whole header reports the header's true fields whatever follows it
+   (rest is arbitrary: the remainder of the frame, a cut remainder, or nothing).  Stated here for the IPv4
+   and IPv6 headers and the TCP header; the other layers are the *_contract lemmas of Proofs/FrameL.v. *)
+Theorem c10_ipv4_header_exact : forall ports base m h next tl rest,
+  wf_ip4 h = true ->
+  run_parser ports PIPv4 base m (ip4_hdr h next tl ++ rest) =
+  Ok ((if base then assign (ip4_assign h next) else (fun x => x)) (add_layer m PIPv4), 20, next_proto next).
+Proof. exact ip4_contract. Qed.
+Theorem c10_ipv6_header_exact : forall ports base m h plen nh rest,
+  wf_ip6_base h = true ->
+  run_parser ports PIPv6 base m (ip6_hdr h nh plen ++ rest) =
+  Ok ((if base then assign (ip6_assign h nh) else (fun x => x)) (add_layer m PIPv6), 40, next_proto nh).
+Proof. exact ip6_contract. Qed.
+Theorem c10_tcp_header_exact : forall base m sp dp fl rest,
+  sp < 65536 -> dp < 65536 ->
+  run_parser [] PTCP base m (enc_l4 (L4TCP sp dp fl) ++ rest) =
+  Ok ((if base then assign [(cSrcPort, VI sp); (cDstPort, VI dp); (cTcpFlags, VI fl)] else (fun x => x)) (add_layer m PTCP),
+      20, PNone).
+Proof. exact tcp_contract. Qed.
+Print Assumptions c10_tcp_header_exact.
+
+(* non-vacuity: the frames the check sends to the real dissector lie inside the theorem's domain, and
+   the extracted dissector agrees with the reference on them when evaluated inside Coq *)
+Example c10_generated_are_wf :
+  forallb (fun i => wf_frame (gcase gen_frame 1 i)) [0;1;2;3;4;5;6;7;8;9;10;11;12;13;14;15;16;17;18;19;20;21;22;23;24] = true.
+Proof. vm_compute. reflexivity. Qed.
 Definition full_ok (f : frame) : bool :=
   match parse_packet empty_pcfg empty_msg (encode_frame f) with
   | Ok m => toks_eqb (show_msg m) (show_msg (ref_frame f))
   | _ => false
   end.
-Example c10_full_partial : forallb full_ok (map (gcase gen_frame 1) [0;1;2;3;4;5;6;7;8;9;10;11;12;13;14;15]) = true.
+Example c10_full_eval : forallb full_ok (map (gcase gen_frame 1) [0;1;2;3;4;5;6;7;8;9;10;11;12;13;14;15]) = true.
 Proof. vm_compute. reflexivity. Qed.
+(* PARTIAL: the statement "for every capture length k, every field of parse (firstn k (encode_frame f))
+   equals the field of the full parse or is unset" is not proved as one theorem over whole frames; the
+   layer theorems above give it per layer, and the check sweeps every cut of every generated frame. *)
